@@ -22,7 +22,7 @@ import (
 // application, and nothing decryptable stays parked.
 //
 // Quiescence: activation has returned, all entries were handed over, the chain key is known; then the parked count and
-// the delivered set must stop changing for 3 s before a missing delivery is judged (a stable wrong state, not a slow one).
+// the delivered set must stop changing for 6 s before a missing delivery is judged (a stable wrong state, not a slow one).
 func TestVerif_C08_GroupContexts(t *testing.T) {
 	acct := vacct.Get("C08")
 	vacct.RapidCheck(t, vacct.N(6, 300), func(rt *rapid.T) {
@@ -136,7 +136,7 @@ func TestVerif_C08_GroupContexts(t *testing.T) {
 			return fmt.Sprintf("%d/%d/%v", len(got), sz, b.ss.IsChainKeyKnownForDevice(vCtx, gpk, adev))
 		}
 		last, since := "", time.Now()
-		deadline := time.Now().Add(40 * time.Second)
+		deadline := time.Now().Add(90 * time.Second)
 		for time.Now().Before(deadline) {
 			select {
 			case e := <-sub.Out():
@@ -158,7 +158,7 @@ func TestVerif_C08_GroupContexts(t *testing.T) {
 			if len(got) == n {
 				break
 			}
-			if time.Since(since) > 3*time.Second && b.ss.IsChainKeyKnownForDevice(vCtx, gpk, adev) {
+			if time.Since(since) > 6*time.Second && b.ss.IsChainKeyKnownForDevice(vCtx, gpk, adev) {
 				break // stable: chain key known, nothing moves any more
 			}
 		}
